@@ -338,3 +338,71 @@ Proof. intros H. unfold uuid_from_str. apply roundtrip_l. exact H. Qed.
 
 Lemma from_str_reject s : ~ valid_short s -> uuid_from_str None s = Err ValueErr.
 Proof. intros H. unfold uuid_from_str. apply from_short_invalid. exact H. Qed.
+
+(* ------------------------------------------------------------------ *)
+(* sequences of calls: what was called before (or after) does not matter *)
+
+Lemma eval_seq_length l : length (eval_seq l) = length l.
+Proof. apply map_length. Qed.
+
+Lemma eval_seq_app l1 l2 : eval_seq (l1 ++ l2) = eval_seq l1 ++ eval_seq l2.
+Proof. apply map_app. Qed.
+
+Lemma calls_independent_l pre c post :
+  nth_error (eval_seq (pre ++ c :: post)) (length pre) = Some (eval_call c).
+Proof.
+  rewrite eval_seq_app. rewrite nth_error_app2; rewrite eval_seq_length; [|apply Nat.le_refl].
+  rewrite Nat.sub_diag. reflexivity.
+Qed.
+
+Lemma nth_error_split_at {A} (l : list A) i x :
+  nth_error l i = Some x -> exists pre post, l = pre ++ x :: post /\ length pre = i.
+Proof.
+  intros H. apply nth_error_split in H as (pre & post & -> & <-). exists pre, post. split; reflexivity.
+Qed.
+
+Lemma seq_nth l i c : nth_error l i = Some c -> nth_error (eval_seq l) i = Some (eval_call c).
+Proof.
+  intros H. apply nth_error_split_at in H as (pre & post & -> & <-). apply calls_independent_l.
+Qed.
+
+(* the string argument of a decoding call (uuid.UUID did not accept it) *)
+Definition decodes (c : call) (s : list Z) : Prop :=
+  c = CFromShort (PStr s) \/ c = CFromStr None s.
+
+Lemma decodes_eval c s : decodes c s -> eval_call c = ORes (uuid_from_short_str (PStr s)).
+Proof. intros [-> | ->]; reflexivity. Qed.
+
+Lemma seq_decode_valid l i c s : nth_error l i = Some c -> decodes c s -> valid_short s ->
+  nth_error (eval_seq l) i = Some (ORes (Ok (value s))).
+Proof.
+  intros H D V. rewrite (seq_nth l i c H), (decodes_eval c s D), from_short_valid by exact V. reflexivity.
+Qed.
+
+Lemma seq_decode_invalid l i c s : nth_error l i = Some c -> decodes c s -> ~ valid_short s ->
+  nth_error (eval_seq l) i = Some (ORes (Err ValueErr)).
+Proof.
+  intros H D V. rewrite (seq_nth l i c H), (decodes_eval c s D), from_short_invalid by exact V. reflexivity.
+Qed.
+
+Lemma seq_decode_injective l i j ci cj si sj n :
+  nth_error l i = Some ci -> nth_error l j = Some cj -> decodes ci si -> decodes cj sj ->
+  nth_error (eval_seq l) i = Some (ORes (Ok n)) -> nth_error (eval_seq l) j = Some (ORes (Ok n)) ->
+  si = sj.
+Proof.
+  intros Hi Hj Di Dj Ri Rj.
+  rewrite (seq_nth l i ci Hi), (decodes_eval ci si Di) in Ri.
+  rewrite (seq_nth l j cj Hj), (decodes_eval cj sj Dj) in Rj.
+  assert (uuid_from_short_str (PStr si) = Ok n) as Ei by congruence.
+  assert (uuid_from_short_str (PStr sj) = Ok n) as Ej by congruence.
+  apply surjective_l in Ei as [_ Ei]. apply surjective_l in Ej as [_ Ej]. congruence.
+Qed.
+
+Lemma seq_encode l i u : nth_error l i = Some (CToShort u) -> is_uuid u ->
+  nth_error (eval_seq l) i = Some (OStr (uuid_to_short_str u)) /\
+  forall j c, nth_error l j = Some c -> decodes c (uuid_to_short_str u) ->
+              nth_error (eval_seq l) j = Some (ORes (Ok u)).
+Proof.
+  intros H U. split; [apply (seq_nth l i _ H)|].
+  intros j c Hj D. rewrite (seq_nth l j c Hj), (decodes_eval c _ D), roundtrip_l by exact U. reflexivity.
+Qed.
